@@ -232,8 +232,9 @@ pending halves are completed by the callers, nothing stays pending at a complete
 slot is linked by exactly one helper and unlinked by exactly one, the unlink post-dominates the link in the removal,
 NIL_INDEX is never released, rooted or stored as a parent, and the pool's vectors are mutated only by the pool's own
 functions, so the slot reserved at construction is never handed out [NILSTATE, POOL]; a freshly linked non-root node is
-red [COLOR]. NOT decided: that the consistent, symmetric algorithm restores
+red [COLOR]; in every upward loop that keeps a (node, parent) cursor pair the node cursor becomes the old parent, so the
+pair stays a child/parent pair [CLIMB]. NOT decided: that the consistent, symmetric algorithm restores
 the colour invariants (needs a proof or exploration of tree shapes: another technique family); a change made
 identically in all copies and both mirrors is invisible to TWIN; the height bound is a consequence and assumed.""",
      ["the shared algorithm is the textbook red-black repair (not re-verified)"],
-     {'TWIN': 50, 'LINKPAIR': 30, 'NILSTATE': 3, 'COLOR': 3, 'POOL': 3})
+     {'TWIN': 50, 'LINKPAIR': 30, 'NILSTATE': 3, 'COLOR': 3, 'POOL': 3, 'CLIMB': 2})
